@@ -304,7 +304,7 @@ def do_replay(pid, path):
     ctx = {}
     payload = json.load(open(path))
     cases = payload.get("cases", [])
-    if not cases:
+    if not cases or any(c.get("static") for c in cases):
         log("replay file names broken obligations only (no concrete input): %s" % payload.get("broken"))
         # re-run the quick check: it decides whether the obligation is still broken
         return run_check(pid, "quick")
@@ -432,9 +432,21 @@ def run_check(pid, tier):
     for k, op in {(k["id"], op): (k, op) for k, op in known_hits}.values():
         log("KNOWN-FINDING: property=%s %s (%s)" % (pid, k["desc"], op[:120]))
 
+    static_cases = []
+    if broken and not violations and cfg.get("static_search"):
+        try:
+            with Lock("lake.lock"):
+                static_cases = cfg["static_search"](ctx, run, LEAN, WORK)
+        except Exception as e:  # search is best-effort
+            log("[%s] static search failed: %s" % (pid, e))
     rc = 0
     replay_path = None
-    if violations:
+    if static_cases:
+        replay_path = write_replay(pid, seed, {"kind": "concrete", "cases": static_cases, "broken": broken,
+                                                "lean_error": lean_error[-3000:]})
+        log("VIOLATION property=%s replay=%s" % (pid, replay_path))
+        rc = 1
+    elif violations:
         r = violations[0][0]
         idxs = [i for (rr, i) in violations if rr is r]
         cases = shrink(ctx, pid, idxs, r)
@@ -455,12 +467,17 @@ def run_check(pid, tier):
 
 def write_evidence(pid, tier, seed, ctx, cfg, res, broken, violations, wall):
     thms = ctx.get("theorems", [])
+    if not thms:
+        try:
+            thms = props_theorems(pid)
+        except Exception:
+            thms = []
     extra_obl = ctx.get("reflective_obligations", [])
     obligations = len(thms) + len(extra_obl)
     discharged = ctx.get("discharged", 0) + (len(extra_obl) if not broken else 0)
     cov = {
         "obligations": obligations,
-        "discharged": discharged if not broken else min(discharged, max(obligations - 1, 0)),
+        "discharged": discharged if not broken else min(ctx.get("discharged", 0), max(obligations - 1, 0)),
         "checker_cmd": ctx.get("checker_cmd", "cd lean && lake build Secp.Props." + pid) +
                        (" && lake env leanchecker Secp.Props." + pid if tier == "thorough" else ""),
         "trusted_base": cfg.get("trusted_base", []) + [
@@ -492,6 +509,10 @@ def write_evidence(pid, tier, seed, ctx, cfg, res, broken, violations, wall):
     else:
         cov["samples"] = [{"obligation": t} for t in thms[:5]] or [{"note": "no samples"}]
     cov.update(ctx.get("extra_coverage", {}))
+    if cov["discharged"] < 1:
+        # nothing was discharged in this run: do not present proof-style counts at all
+        cov.pop("obligations"); cov.pop("discharged")
+        cov["undischarged_theorems"] = thms
     ev = {
         "property_id": pid, "tier": tier, "seed": seed, "level": cfg.get("level", "proof"),
         "coverage": cov,
